@@ -93,7 +93,7 @@ def create_stan_windowed_adaptation(joint, parameters, parameters_unres, arg):
     stan_windowed_adaptation = {
         "id": "adaptor",
         "type": "StanWindowedAdaptation",
-        "warmup": 1000,
+        "warmup": arg.warmup,
         "initial_window": 75,
         "final_window": 50,
         "base_window": 25,
